@@ -137,7 +137,8 @@ def affects(pt, ev_pt, locs):
 class Evaluator:
     def __init__(self, crate, inline=(), inline_depth=3, stop_blocks=(), ptr=64, pure_calls=(),
                  max_paths=MAX_PATHS, record_trace=False, extra_crates=(), effects=None, max_blocks=None,
-                 summaries=(), sumcache=None):
+                 summaries=(), sumcache=None, unroll=1):
+        self.unroll = unroll
         self.effects = effects
         self.max_blocks = max_blocks
         self.summaries = tuple(summaries)
@@ -274,6 +275,8 @@ class Evaluator:
                         return ("int", base[2][const_val(pt[2])])
                     if base[0] == "constarr":
                         return ("pure", "index", (base, pt[2]))
+                    if base[0] == "array" and base[1] and all(is_const(q) for q in base[1]):
+                        return ("pure", "index", (("constarr", "<inline>", tuple(const_val(q) for q in base[1])), pt[2]))
                     if base[0] in ("call", "pure", "field", "param", "unknown") and is_const(pt[2]):
                         return ("field", base, "[%d]" % const_val(pt[2]))
                 elif k == "cidx":
@@ -634,13 +637,23 @@ class Evaluator:
             if len(st.frames) == 1 and bb in self.stop:
                 self._finish(st, ("stop", bb))
                 return
-            if key in st.visited:
-                self._finish(st, ("backedge", bb))
-                return
-            if self.max_blocks is not None and len(st.visited) >= self.max_blocks:
-                self._finish(st, ("stop", bb))
-                return
-            st.visited.add(key)
+            if self.unroll <= 1:
+                if key in st.visited:
+                    self._finish(st, ("backedge", bb))
+                    return
+                if self.max_blocks is not None and len(st.visited) >= self.max_blocks:
+                    self._finish(st, ("stop", bb))
+                    return
+                st.visited.add(key)
+            else:
+                n = sum(1 for k in st.visited if k[0] == frame and k[1] == bb)
+                if n >= self.unroll:
+                    self._finish(st, ("backedge", bb))
+                    return
+                if self.max_blocks is not None and len(st.visited) >= self.max_blocks:
+                    self._finish(st, ("stop", bb))
+                    return
+                st.visited.add((frame, bb, n))
             if self.record_trace:
                 st.trace.append((fn.id, bb))
             blk = fn.blocks[bb]
@@ -805,7 +818,7 @@ class Evaluator:
                 st.seq += 1
                 seq = st.seq
                 st.effects.append(("call", callee, tuple(args), sp, seq, tuple(c.get("closures", []))))
-                self._havoc_call(st, cid, args)
+                self._havoc_call(st, cid, args, cf_for_adt=cf if any(a[0] == "closure_call" for a in alts) else None)
                 conts = []
                 for i, alt in enumerate(alts):
                     s2 = st.copy() if i < len(alts) - 1 else st
@@ -831,11 +844,15 @@ class Evaluator:
         self._havoc_call(st, cid, args)
         return finish_value(st, res)
 
-    def _havoc_call(self, st, cid, args):
+    def _havoc_call(self, st, cid, args, cf_for_adt=None):
         summ = self.effects.lookup(cid) if (self.effects is not None and cid) else None
         for j, a in enumerate(args):
             if summ is not None and a[0] == "ref" and a[2]:
-                if (j + 1) in summ["WP"]:
+                adt_pointee = False
+                if cf_for_adt is not None and j + 1 < len(cf_for_adt.locals):
+                    tk = cf_for_adt.locals[j + 1]["tk"]
+                    adt_pointee = tk.get("k") == "ref" and (tk.get("tok") or {}).get("k") == "adt"
+                if (j + 1) in summ["WP"] and not adt_pointee:
                     self.havoc(st, a[1], None)
                 else:
                     self.havoc(st, a[1], (summ["W"], summ["W"] - summ["Wel"]))
